@@ -840,7 +840,15 @@ class Engine(object):
         raise Unsupported("str.%s on a symbolic string" % name)
 
     def case_map_unbounded(self, ex, s, name):
-        raise Unsupported("str.%s on a string of unknown length" % name)
+        # pointwise ASCII case mapping as a lambda-defined array (same length, no quantifier)
+        i = z3.Int("q_case_i")
+        c = s.at(i)
+        if name == "upper":
+            c2 = z3.If(z3.And(c >= 97, c <= 122), c - 32, c)
+        else:
+            c2 = z3.If(z3.And(c >= 65, c <= 90), c + 32, c)
+        ex.ctx.tags.add("assumes: ASCII case mapping for str.%s" % name)
+        return SStr(s.length, z3.Lambda([i], c2), z3.IntVal(0), is_bytes=s.is_bytes, maxlen=s.maxlen)
 
     # ------------------------------------------------------------ contracts at call sites
     def resolve_exc(self, fref, ename):
